@@ -2,15 +2,48 @@
 from common import SAN_BASE
 
 PROP = dict(
-        technique="runtime monitoring: ASan/UBSan build + independent reference codec; real encoders driven with piecewise pushes and capacity schedules, real decoders driven one-shot/segmented/fragmented",
-        level_text="(filled in below)",
-        level_note="trusts the reference codec in harness/c01_refcodec.h (itself cross-checked: reference decode of every produced frame == message), gcc ASan+UBSan",
-        legs=[dict(name="c01_codec", src=["c01_codec.c"], libs=["mptcore"], batch=256, timeout=30,
-                   floors={}),
-              dict(name="c01_cxx", src=["c01_cxx.cpp"], libs=["mpt++", "mptio", "mptplot", "mptcore"], batch=256, timeout=30,
-                   floors={}),
-              dict(name="c01_python", src=["c01_python.c"], libs=["mptcore"], batch=64, timeout=30,
-                   floors={})],
-        rule="(filled in below)",
-        assumptions=SAN_BASE,
+        technique=("runtime monitoring: ASan/UBSan build + independent reference codec; the real encoders are driven with piecewise "
+                   "pushes under output-capacity schedules (raw encoder functions, mpt_array_push, C++ encode_array::push, the "
+                   "Python client's encoders in a co-process), every produced frame is checked for shape, decoded by the reference "
+                   "decoder and by the real decoders (one call / byte-wise / PRNG segmentation with iovec fragments and peeks)"),
+        level_text=("Monitored executions of the real encoder and decoder code for COBS, COBS/R, COBS/ZPE, COBS/ZPE+R and command "
+                    "framing: every message length 0..520 (quick) / 0..770 (thorough) x 5 framings x 12/48 pattern-driver-split "
+                    "variants, plus 80k / 2M PRNG cases with 1..4 structured messages (run lengths around 30/31, 222..224, 253..255, "
+                    "zero pairs, final byte around the open block code) encoded into one buffer; 12k / 400k C++ encode_array cases; "
+                    "2.4k / 41k messages through mpt.py encode_cobs/encode_command.  Each frame: zero-free + one final delimiter, "
+                    "reference decode == message, real decode == message with input position exactly behind the delimiter.  "
+                    "Exploration, not proof: messages longer than ~4 blocks and capacity schedules are sampled."),
+        level_note=("trusts the reference codec in harness/c01_refcodec.h (written from the COBS / COBS/R definitions and the "
+                    "library's documented ZPE constants; cross-checked on every case: reference decode of the real frame == message), "
+                    "gcc ASan+UBSan; python3 for the client leg"),
+        legs=[dict(name="c01_codec", src=["c01_codec.c"], libs=["mptcore"], batch=256, timeout=40,
+                   floors={"mpt_encode_cobs": 200000, "mpt_encode_cobs_r": 200000, "mpt_encode_cobs_zpe": 200000,
+                           "mpt_encode_cobs_zpe_r": 200000, "mpt_encode_string": 200000, "mpt_array_push": 500000,
+                           "frames:cobs": 8000, "frames:cobs_r": 8000, "frames:cobs_zpe": 8000, "frames:cobs_zpe_r": 8000,
+                           "frames:command": 8000, "monitor:message-compare": 150000,
+                           "monitor:frame-shape+reference-decode": 60000, "monitor:command-zero-refused": 500,
+                           "state:frame-with-inlined-tail": 5000, "state:frame-with-zero-pair-code": 3000,
+                           "state:frame-with-full-block": 5000, "raw:missing-buffer-on-terminate": 3000,
+                           "raw:front-removed": 5000, "decode:runs-with-missing-buffer": 3000,
+                           "state:array-buffer-exactly-full": 50}),
+              dict(name="c01_cxx", src=["c01_cxx.cpp"], libs=["mpt++", "mptio", "mptplot", "mptcore"], batch=256, timeout=40,
+                   floors={"encode_array::push": 200000, "encode_array::push(message)": 2000, "encode_array::data": 10000,
+                           "monitor:library-decode-compare": 10000}),
+              dict(name="c01_python", src=["c01_python.c"], libs=["mptcore"], batch=64, timeout=40,
+                   floors={"mpt.py:encode_cobs": 1500, "mpt.py:encode_command": 300,
+                           "monitor:python-frame-through-c-decoder": 4000, "cases:ramp-every-length": 601})],
+        rule=("case = (framing, driver in {raw encoder function with capacity schedule (start 0..8 / ~255 / NULL block; growth +1, "
+              "+k, just enough, doubling), mpt_array_push, C++ encode_array::push (pieces, or one fragmented mpt::message), mpt.py encoder}, 1..4 messages, per message a "
+              "split into push pieces (one piece, single bytes, two pieces cut at a block edge / inside a zero pair, PRNG "
+              "composition)); frames are decoded one-shot, byte-wise and under a PRNG schedule (slack, segment sizes, 1..4 iovec "
+              "fragments, MissingBuffer answer size, peek calls).  non-trivial = some message of the case contains a zero byte, "
+              "or is >= 222 bytes (more than one ZPE block), or is pushed in more than one piece (python leg: message has a zero, "
+              "is >= 254 bytes, or is command text); distinct = 64-bit hash of (framing, driver, message bytes, split kinds)"),
+        exhaustive_note="every message length 0..520 (quick) / 0..770 (thorough) for each of the 5 framings (content patterns and schedules sampled per length)",
+        assumptions=SAN_BASE + [
+            "reference codec harness/c01_refcodec.h; COBS/ZPE constants are the library's documented wire variant (max block code 0xDF, pair codes 0xE0+n), not the table of the COBS paper",
+            "caller protocol of DESIGN Appendix A: MissingBuffer is answered with a larger output holding the same leading bytes; decoder MissingBuffer with free bytes inserted at state.curr",
+            "command decoder delivers the text behind the 2-byte header {0x04, ' '} (its doc comment)",
+            "python3 interpreter executing $VERIF_REPO/mpt.py",
+        ],
     )
